@@ -140,9 +140,10 @@ PROPS = {
         'assumptions': [],
     },
     'C08': {
-        'lean_targets': ['Cqos.Props.C08'],
+        'lean_targets': ['Cqos.Props.C08', 'Cqos.Facts.C08'],
+        'facts': True,
         'theorems': ['Cqos.C08.e_step', 'Cqos.C08.e_run', 'Cqos.C08.c08_copy', 'Cqos.C08.c08_nocopy',
-                     'Cqos.C08.c08_await_only_release', 'Cqos.C08.c08_v1_frozen', 'Cqos.C08.c08_cap'],
+                     'Cqos.C08.c08_await_only_release', 'Cqos.C08.c08_v1_frozen', 'Cqos.C08.c08_cap', 'Cqos.Facts.c08_release_unbuffered'],
         'runs': [{'cmd': 'jstepper', 'args': ['-family', 'mixed']},
                  {'cmd': 'blackbox', 'args': ['-scenario', 'join']}],
         'monitor_prefix': ['C08'],
@@ -180,7 +181,7 @@ PROPS = {
         'assumptions': ['monotone clock (time.Now / time.Since)'],
     },
     'C10': {
-        'lean_targets': ['Cqos.Props.C10', 'Cqos.Facts.Expect'],
+        'lean_targets': ['Cqos.Props.C10', 'Cqos.Facts.C10'],
         'facts': True,
         'theorems': ['Cqos.C10.c10_interval_v2', 'Cqos.C10.c10_interval_v2_nonpositive', 'Cqos.C10.c10_interval_v2_errors',
                      'Cqos.C10.c10_interval_v1', 'Cqos.C10.f_step', 'Cqos.C10.f_run', 'Cqos.C10.c10_passAt_le_oldest',
@@ -324,9 +325,11 @@ PROPS = {
         'assumptions': ['priority keys of the Inputs map are distinct (Go map)'],
     },
     'C17': {
-        'lean_targets': ['Cqos.Props.C17'],
+        'lean_targets': ['Cqos.Props.C17', 'Cqos.Facts.C17'],
+        'facts': True,
         'theorems': ['Cqos.C17.c17_remove', 'Cqos.C17.c17_remove_unreg', 'Cqos.C17.c17_unregistered_not_read', 'Cqos.C17.c17_add',
-                     'Cqos.C17.c17_actual_survives', 'Cqos.C01.c01_v1', 'Cqos.C15.c15_args_v1', 'Cqos.C07.c07_v1_graceful_only_then'],
+                     'Cqos.C17.c17_actual_survives', 'Cqos.C01.c01_v1', 'Cqos.C15.c15_args_v1', 'Cqos.C07.c07_v1_graceful_only_then',
+                     'Cqos.Facts.c17_commands_unbuffered'],
         'runs': [{'cmd': 'stepper', 'args': ['-family', 'dynamic']},
                  {'cmd': 'blackbox', 'args': ['-scenario', 'dynamic']}],
         'monitor_prefix': ['C17', 'C02', 'C01'],
@@ -342,9 +345,10 @@ PROPS = {
         'assumptions': [],
     },
     'C16': {
-        'lean_targets': ['Cqos.Props.C16'],
+        'lean_targets': ['Cqos.Props.C16', 'Cqos.Facts.C16'],
+        'facts': True,
         'theorems': ['Cqos.C16.c16_stop_step', 'Cqos.C16.c16_exit_bound', 'Cqos.C16.c16_quiet', 'Cqos.C16.c16_unfixed_cycle',
-                     'Cqos.C16.c16_join_stop', 'Cqos.C08.c08_v1_frozen', 'Cqos.C02.c02_subsequence', 'Cqos.C03.c03_prefix'],
+                     'Cqos.C16.c16_join_stop', 'Cqos.Facts.c16_selects_offer_stop', 'Cqos.C08.c08_v1_frozen', 'Cqos.C02.c02_subsequence', 'Cqos.C03.c03_prefix'],
         'runs': [{'cmd': 'stepper', 'args': ['-family', 'stops']}, {'cmd': 'jstepper', 'args': ['-family', 'mixed']},
                  {'cmd': 'blackbox', 'args': ['-scenario', 'prio1,simple1,join']}],
         'monitor_prefix': ['C16'],
@@ -402,10 +406,10 @@ PROPS = {
         'assumptions': ['handlers eventually release; Go schedules the discipline goroutine'],
     },
     'C19': {
-        'lean_targets': ['Cqos.Facts.Expect', 'Cqos.Props.C16', 'Cqos.Props.C07', 'Cqos.Props.C03', 'Cqos.Props.C12'],
+        'lean_targets': ['Cqos.Facts.C19', 'Cqos.Facts.C16', 'Cqos.Props.C16', 'Cqos.Props.C07', 'Cqos.Props.C03', 'Cqos.Props.C12'],
         'facts': True,
         'theorems': ['Cqos.Facts.c19_spawn_table', 'Cqos.Facts.c19_main_defers', 'Cqos.Facts.afterSignal_head',
-                     'Cqos.Facts.c19_nothing_after_signal', 'Cqos.Facts.c19_helper_joined', 'Cqos.Facts.c19_handlers_exit', 'Cqos.Facts.c16_selects_offer_stop',
+                     'Cqos.Facts.c19_nothing_after_signal', 'Cqos.Facts.c19_helper_joined', 'Cqos.Facts.c19_handlers_exit', 'Cqos.Facts.c19_err_buffered', 'Cqos.Facts.c16_selects_offer_stop',
                      'Cqos.C16.c16_exit_bound', 'Cqos.C16.c16_quiet', 'Cqos.C16.c16_join_stop', 'Cqos.C07.c07_v2_only_then',
                      'Cqos.C07.c07_v1_graceful_only_then', 'Cqos.C12.c12_close'],
         'runs': [{'cmd': 'blackbox', 'args': ['-scenario', 'all']}],
@@ -430,7 +434,7 @@ PROPS = {
         'assumptions': ['Go runs deferred calls in reverse registration order after the function body', 'user Handle functions honour their context (v1 Simple)'],
     },
     'C20': {
-        'lean_targets': ['Cqos.Facts.Expect', 'Cqos.Props.C08', 'Cqos.Props.C17'],
+        'lean_targets': ['Cqos.Facts.C20', 'Cqos.Facts.C19', 'Cqos.Props.C08', 'Cqos.Props.C17'],
         'facts': True,
         'theorems': ['Cqos.Facts.c20_confined', 'Cqos.Facts.c20_main_writes', 'Cqos.Facts.c20_ctors', 'Cqos.Facts.c19_spawn_table',
                      'Cqos.C08.c08_copy', 'Cqos.C08.c08_nocopy', 'Cqos.C08.c08_await_only_release', 'Cqos.C08.c08_v1_frozen',
